@@ -131,13 +131,26 @@ func execAll(in string) string {
 		s := &psatoken.SwComponents[*psatoken.SwComponent]{}
 		r := vep(func() error { return s.UnmarshalCBOR(cp()) })
 		if r == "v" {
-			r += "/" + vep(func() error { _ = s.Validate(); _, _ = s.Values(); _, _ = s.MarshalCBOR(); _, _ = s.MarshalJSON(); _ = s.IsEmpty(); return nil })
+			r += "/" + vep(func() error {
+				_ = s.Validate()
+				_, _ = s.Values()
+				_, _ = s.MarshalCBOR()
+				_, _ = s.MarshalJSON()
+				_ = s.IsEmpty()
+				return nil
+			})
 		}
 		add("swcbor", r)
 		s2 := &psatoken.SwComponents[*psatoken.SwComponent]{}
 		r = vep(func() error { return s2.UnmarshalJSON(cp()) })
 		if r == "v" {
-			r += "/" + vep(func() error { _ = s2.Validate(); _, _ = s2.Values(); _, _ = s2.MarshalCBOR(); _, _ = s2.MarshalJSON(); return nil })
+			r += "/" + vep(func() error {
+				_ = s2.Validate()
+				_, _ = s2.Values()
+				_, _ = s2.MarshalCBOR()
+				_, _ = s2.MarshalJSON()
+				return nil
+			})
 		}
 		add("swjson", r)
 	}
@@ -299,9 +312,29 @@ func genC06(tier string, seed uint64, emit func(string)) {
 			}
 		}
 	}
+	// rejected profile claims first: whatever they leave behind (a lock, a half-written register) shows in every later case
+	for _, j := range []string{`{"eat-profile":"http://example.com/not-registered"}`, `{"psa-profile":42}`, `{"eat-profile":["x"]}`, `{"psa-profile":"PSA_IOT_PROFILE_9"}`} {
+		all([]byte(j))
+	}
 	// JSON with absurd numbers / long runs
 	for _, j := range []string{`{"psa-client-id":` + strings.Repeat("9", 4000) + `}`, `[` + strings.Repeat("0,", 30000) + `0]`, `"` + strings.Repeat("A", 60000) + `"`} {
 		all([]byte(j))
+	}
+	// objects with thousands of distinct member names, every one repeated (de-duplication must not cost quadratic memory)
+	for _, cnt := range []int{500, 2500} {
+		var sb strings.Builder
+		sb.WriteString("{")
+		for rep := 0; rep < 2; rep++ {
+			for i := 0; i < cnt; i++ {
+				if rep+i > 0 {
+					sb.WriteString(",")
+				}
+				sb.WriteString(`"k` + strconv.Itoa(i) + `":0`)
+			}
+		}
+		sb.WriteString("}")
+		all([]byte(sb.String()))
+		all([]byte(strings.Replace(sb.String(), `"k0":0`, `"psa-client-id":1`, 1)))
 	}
 	// deep nesting
 	depths := []int{40, 200, 2000, 20000}
